@@ -119,7 +119,7 @@ class Rewriter:
                     l = s["pl"]["l"]
                     d.setdefault(l, []).append(("stmt", bi, si) if not s["pl"]["p"] else ("partial", bi, si))
             t = blk["term"]
-            if t["k"] == "call":
+            if t is not None and t["k"] == "call":
                 l = t["dest"]["l"]
                 d.setdefault(l, []).append(("call", bi) if not t["dest"]["p"] else ("partial", bi, -1))
         self.defs = d
@@ -210,7 +210,12 @@ class Rewriter:
             if m in ("copied", "cloned", "flatten", "enumerate"):
                 stages = stages + [(m, None)]
             elif m == "flat_map":
-                stages = stages + [("map", t["args"][1]), ("flatten", None)]
+                if self.closure_ret_ty(t["args"][1]).startswith("core::option::Option<"):
+                    stages = stages + [("map", t["args"][1]), ("flatten", None)]
+                else:
+                    # the closure yields an iterator per element: a nested loop (only when the closure body is a
+                    # straight line that can be spliced in here, see inline_closure)
+                    stages = stages + [("flat_iter", t["args"][1])]
             else:
                 stages = stages + [(m, t["args"][1])]
             return src, stages, blks + [d[1]]
@@ -245,7 +250,43 @@ class Rewriter:
     def emit_stages(self, cur, x, stages, stage_clos, retry, sp):
         """append the adaptor stages to block `cur` (element in local x); a skipped element jumps to `retry`.
         -> (block to continue in, local holding the staged element)"""
+        self.cont = retry          # where the terminal goes for the next element
         for (sm, cop), cl in zip(stages, stage_clos):
+            if sm == "flat_iter":
+                # inner = closure(x); for y in inner { ..rest.. }
+                ckey = self.closure_key(cop)
+                cur, inner = self.inline_closure(cl, ckey, [self.mv(x)], cur, sp)
+                self.build_defs()
+                tr = self.trace_iter(self.mv(inner))
+                it2, stages2, blks2 = tr
+                self.neutralise(blks2, sp)
+                ity2 = self.source_item_ty(it2)
+                pre2 = self.blocks[cur]["stmts"]
+                clos2 = []
+                for sm2, cop2 in stages2:
+                    if sm2 == "enumerate":
+                        c_ = self.new_local("usize", "index")
+                        pre2.append(self.assign(c_, self.use({"k": "const", "ty": "usize", "v": 0}), sp))
+                        clos2.append(c_)
+                    else:
+                        clos2.append(self.closure_local(cop2, pre2, sp) if cop2 is not None else None)
+                opt2 = "core::option::Option<%s>" % ity2
+                n2 = self.new_local(opt2)
+                r2 = self.new_local("&mut " + self.ty(it2))
+                d2 = self.new_local("isize")
+                H2 = self.new_block([self.assign(r2, {"k": "ref", "mut": True, "pl": self.pl(it2)}, sp)], None)
+                Sw2 = self.new_block([self.assign(d2, {"k": "discr", "pl": self.pl(n2), "of": opt2}, sp)], None)
+                U2 = self.new_block([], {"k": "unreachable", "sp": sp})
+                self.blocks[H2]["term"] = {"k": "call", "callee": {"fn": ITER + "next", "targs": [self.ty(it2)], "res": NEXT_RES, "rargs": []},
+                                           "args": [self.mv(r2)], "dest": self.pl(n2), "t": Sw2, "sp": sp}
+                y = self.new_local(ity2, "item")
+                E2 = self.new_block([self.assign(y, self.use(self.cp(n2, [{"dc": 1, "n": "Some", "of": opt2}, {"f": 0, "n": "0", "of": opt2, "ty": ity2}])), sp)], None)
+                self.blocks[Sw2]["term"] = {"k": "switch", "discr": self.mv(d2), "dty": "isize", "arms": [[0, retry], [1, E2]], "otherwise": U2, "sp": sp}
+                self.blocks[cur]["term"] = self.goto(H2, sp)
+                cur, x = self.emit_stages(E2, y, stages2, clos2, H2, sp)
+                retry = H2
+                self.cont = H2
+                continue
             if sm in ("copied", "cloned"):
                 if self.ty(x).startswith("&"):
                     y = self.new_local(self.ty(x)[1:].strip(), "item")
@@ -329,7 +370,118 @@ class Rewriter:
                 if not t0.startswith("core::option::Option<"):
                     return False
                 ty = ("&" if byref else "") + t0[len("core::option::Option<"):-1]
+            elif sm == "flat_iter":
+                inner = self.inner_chain_of(cop)
+                if inner is None:
+                    return False
+                ty = inner
         return True
+
+    # ------------------------------------------------------------ closures spliced into the caller
+    def splicable(self, ckey):
+        """a closure body that is one straight line of statements and calls (no branches, no loops, no drops)"""
+        cb = self.bodies.get(ckey) if ckey else None
+        if cb is None:
+            return None
+        seen = set()
+        bi = 0
+        order = []
+        while True:
+            if bi in seen or bi >= len(cb["blocks"]):
+                return None
+            seen.add(bi)
+            blk = cb["blocks"][bi]
+            if blk["cleanup"]:
+                return None
+            order.append(bi)
+            t = blk["term"]
+            if t["k"] == "return":
+                return order
+            if t["k"] == "goto":
+                bi = t["t"]
+            elif t["k"] == "call" and t.get("t") is not None and "fn" in t["callee"]:
+                bi = t["t"]
+            else:
+                return None
+
+    def inner_chain_of(self, cop):
+        """for a flat_map closure: the element type of the iterator chain it returns, when that chain can be traced
+        inside the closure body and the body can be spliced in; None otherwise"""
+        ckey = self.closure_key(cop)
+        if self.splicable(ckey) is None:
+            return None
+        import copy as _copy
+        sub = Rewriter(_copy.deepcopy(self.bodies[ckey]), self.bodies)
+        sub.build_defs()
+        tr = sub.trace_iter(sub.mv(0))
+        if tr is None:
+            return None
+        it, stages, blks = tr
+        ity = sub.source_item_ty(it)
+        for sm, c2 in stages:
+            if sm in ("copied", "cloned") and ity == "?":
+                return None
+            if sm == "flat_iter":
+                return None          # one level of nesting only
+        if not sub.stages_ok(ity, stages):
+            return None
+        for sm, c2 in stages:
+            if sm == "map":
+                ity = sub.closure_ret_ty(c2)
+            elif sm == "enumerate":
+                ity = "(usize, %s)" % ity
+        return ity
+
+    def inline_closure(self, clos_local, ckey, args, cur, sp):
+        """splice the (straight-line) body of closure `ckey`, held in `clos_local`, into block `cur` with the given
+        argument operands; -> (block to continue in, local holding the closure's result)"""
+        import copy as _copy
+        cb = self.bodies[ckey]
+        order = self.splicable(ckey)
+        lmap = {}
+        for i, lc in enumerate(cb["locals"]):
+            if i == 1:
+                continue
+            lmap[i] = self.new_local(lc["ty"], (lc.get("name") or None))
+
+        def rpl(pl):
+            if pl["l"] == 1:
+                pr = list(pl["p"])
+                if pr and pr[0] == "deref":
+                    pr = pr[1:]
+                return {"l": clos_local, "p": _copy.deepcopy(pr)}
+            return {"l": lmap[pl["l"]], "p": _copy.deepcopy(pl["p"])}
+
+        def rop(op):
+            if op["k"] in ("move", "copy"):
+                return {"k": op["k"], "pl": rpl(op["pl"])}
+            return _copy.deepcopy(op)
+
+        def rrv(rv):
+            rv = _copy.deepcopy(rv)
+            for key in ("op", "a", "b"):
+                if key in rv and isinstance(rv[key], dict) and "k" in rv[key]:
+                    rv[key] = rop(rv[key])
+            if "ops" in rv:
+                rv["ops"] = [rop(o) for o in rv["ops"]]
+            if "pl" in rv:
+                rv["pl"] = rpl(rv["pl"])
+            return rv
+        # arguments
+        for k, a in enumerate(args):
+            self.blocks[cur]["stmts"].append(self.assign(lmap[2 + k], self.use(a), sp))
+        for bi in order:
+            blk = cb["blocks"][bi]
+            for s in blk["stmts"]:
+                if s["k"] == "assign":
+                    self.blocks[cur]["stmts"].append({"k": "assign", "pl": rpl(s["pl"]), "rv": rrv(s["rv"]), "sp": s.get("sp", sp)})
+            t = blk["term"]
+            if t["k"] == "call":
+                nxt = self.new_block([], None)
+                self.blocks[cur]["term"] = {"k": "call", "callee": _copy.deepcopy(t["callee"]), "args": [rop(a) for a in t["args"]],
+                                            "dest": rpl(t["dest"]), "t": nxt, "sp": t.get("sp", sp)}
+                cur = nxt
+        return cur, lmap[0]
 
     def source_item_ty(self, it):
         ty = self.ty(it)
@@ -557,10 +709,11 @@ class Rewriter:
         self.blocks[Sw]["term"] = {"k": "switch", "discr": self.mv(d), "dty": "isize", "arms": [[0, X], [1, E]],
                                    "otherwise": U, "sp": sp}
         cur, x = self.emit_stages(E, x, stages, stage_clos, H, sp)
+        C = self.cont          # the loop to continue with (the innermost one when a flat_map opened a nested loop)
         # terminal body
         if m == "fold":
             a2 = self.new_local(self.ty(acc))
-            back = self.new_block([self.assign(acc, self.use(self.mv(a2)), sp)], self.goto(H, sp))
+            back = self.new_block([self.assign(acc, self.use(self.mv(a2)), sp)], self.goto(C, sp))
             self.blocks[cur]["term"] = self.closure_call(clos, [self.mv(acc), self.mv(x)], a2, back, sp, self.blocks[cur]["stmts"])
         elif m in ("try_fold", "try_for_each"):
             # acc = f(acc, x)?  : None / Err(e) leaves with that value, Some(v) / Ok(v) continues with v
@@ -587,9 +740,9 @@ class Rewriter:
                 cproj = [{"dc": 0, "n": "Ok", "of": rty}, {"f": 0, "n": "0", "of": rty, "ty": "?"}]
                 arms = [[1, brk], [0, None]]
             if m == "try_fold":
-                cont = self.new_block([self.assign(acc, self.use(self.cp(r2, cproj)), sp)], self.goto(H, sp))
+                cont = self.new_block([self.assign(acc, self.use(self.cp(r2, cproj)), sp)], self.goto(C, sp))
             else:
-                cont = H
+                cont = C
             arms = sorted([[v_, (cont if b_ is None else b_)] for v_, b_ in arms])
             self.blocks[chk]["term"] = {"k": "switch", "discr": self.mv(d2), "dty": "isize", "arms": arms, "otherwise": U2, "sp": sp}
         elif m == "collect":
@@ -602,7 +755,7 @@ class Rewriter:
                 self.blocks[cur]["term"] = {"k": "call", "callee": {"fn": SQ + "::bitboard", "targs": [], "res": SQ + "::bitboard", "rargs": []},
                                             "args": [self.mv(x)], "dest": self.pl(b2), "t": nxt, "sp": sp}
             a2 = self.new_local(BB)
-            back = self.new_block([self.assign(acc, self.use(self.mv(a2)), sp)], self.goto(H, sp))
+            back = self.new_block([self.assign(acc, self.use(self.mv(a2)), sp)], self.goto(C, sp))
             orname = "<%s as core::ops::BitOr>::bitor" % BB
             self.blocks[nxt]["term"] = {"k": "call", "callee": {"fn": "core::ops::bit::BitOr::bitor", "targs": [BB, BB], "res": orname, "rargs": []},
                                         "args": [self.mv(acc), self.mv(b2)], "dest": self.pl(a2), "t": back, "sp": sp}
@@ -613,12 +766,12 @@ class Rewriter:
             val = 1 if m == "any" else 0
             hit = self.new_block([self.assign_pl(dest, self.use({"k": "const", "ty": "bool", "v": val}), sp)], self.goto(T, sp))
             if m == "any":
-                self.blocks[chk]["term"] = {"k": "switch", "discr": self.mv(tb), "dty": "bool", "arms": [[0, H]], "otherwise": hit, "sp": sp}
+                self.blocks[chk]["term"] = {"k": "switch", "discr": self.mv(tb), "dty": "bool", "arms": [[0, C]], "otherwise": hit, "sp": sp}
             else:
-                self.blocks[chk]["term"] = {"k": "switch", "discr": self.mv(tb), "dty": "bool", "arms": [[0, hit]], "otherwise": H, "sp": sp}
+                self.blocks[chk]["term"] = {"k": "switch", "discr": self.mv(tb), "dty": "bool", "arms": [[0, hit]], "otherwise": C, "sp": sp}
         elif m == "for_each":
             u = self.new_local("()")
-            self.blocks[cur]["term"] = self.closure_call(clos, [self.mv(x)], u, H, sp, self.blocks[cur]["stmts"])
+            self.blocks[cur]["term"] = self.closure_call(clos, [self.mv(x)], u, C, sp, self.blocks[cur]["stmts"])
         elif m == "find":
             rx = self.new_local("&" + self.ty(x))
             tb = self.new_local("bool")
@@ -627,7 +780,7 @@ class Rewriter:
             self.blocks[cur]["term"] = self.closure_call(clos, [self.mv(rx)], tb, chk, sp, self.blocks[cur]["stmts"])
             hit = self.new_block([self.assign_pl(dest, {"k": "agg", "ak": "adt", "adt": "core::option::Option", "variant": "Some",
                                                         "vi": 1, "targs": [], "fields": ["0"], "ops": [self.mv(x)]}, sp)], self.goto(T, sp))
-            self.blocks[chk]["term"] = {"k": "switch", "discr": self.mv(tb), "dty": "bool", "arms": [[0, H]], "otherwise": hit, "sp": sp}
+            self.blocks[chk]["term"] = {"k": "switch", "discr": self.mv(tb), "dty": "bool", "arms": [[0, C]], "otherwise": hit, "sp": sp}
         # entry: the original block now runs the preamble and jumps to the header
         blk["stmts"].extend(pre)
         blk["term"] = self.goto(H, sp)
